@@ -4,9 +4,9 @@
 def planters():
     try:
         from vf.rulehosts.plant import PLANTERS
-        from vf.rulehosts.plant_noop import plant_if_scopes, plant_overridable_shape_operand
+        from vf.rulehosts.plant_noop import plant_if_scopes, plant_loop_scopes, plant_overridable_shape_operand
 
         n = max(2, len(PLANTERS) // 12)  # general idioms that are not hosts of one rule: about 8% of the planted patterns
-        return list(PLANTERS) + [plant_if_scopes] * n + [plant_overridable_shape_operand] * n
+        return list(PLANTERS) + [plant_if_scopes] * n + [plant_overridable_shape_operand] * n + [plant_loop_scopes] * n
     except ImportError:
         return []
